@@ -236,6 +236,46 @@ fn overflow_program(rng: &mut Rng) -> Prog {
     Prog { ssa: kept, nvars: 2 }
 }
 
+/// every unary operator on intervals that are a few ulps wide, at magnitudes from 0.5 to 1e9 and both signs
+/// (the quadrant / monotonicity case analysis of the trigonometric operators works on rounded angles)
+fn narrow_cases<F: Function<Trace = VmTrace>>(cx: &mut Cx, backend: &str, make: &dyn Fn(&Prog) -> Option<F>, quick: bool) {
+    use vharness::tapes::{GOp, UNARY};
+    let next_up = |x: f32| if x >= 0.0 { f32::from_bits(x.to_bits() + 1) } else { f32::from_bits(x.to_bits() - 1) };
+    for u in UNARY {
+        let p = Prog { ssa: vec![GOp::new(0, "Output", -1, 1, 0, 0), GOp::new(3, u, 1, 0, -1, 0), GOp::new(1, "Input", 0, 0, -1, 0)], nvars: 1 };
+        let Some(f) = make(&p) else { continue };
+        let base = json!({"backend": backend, "tag": "narrow", "nout": 1});
+        let mut x = 0.5f32;
+        let step = if quick { 1.004f32 } else { 1.0003 };
+        while x < 1.0e9 {
+            for k in [1usize, 2, 5] {
+                let mut hi = x;
+                for _ in 0..k {
+                    hi = next_up(hi);
+                }
+                for (l, h) in [(x, hi), (-hi, -x)] {
+                    let bx = vec![Interval::new(l, h)];
+                    let t = interval_trace(&f, &bx);
+                    if t.panic || cx.id % 97 == 0 {
+                        let mut j = base.clone();
+                        j["ev"] = json!("eval");
+                        j["id"] = json!(cx.id);
+                        j["kind"] = json!("interval");
+                        j["panic"] = json!(t.panic);
+                        j["err"] = json!(t.err);
+                        j["out"] = json!(t.out.iter().map(ibits).collect::<Vec<_>>());
+                        j["in"] = json!(bx.iter().map(ibits).collect::<Vec<_>>());
+                        j["ssa"] = if t.panic { ops_json(&p.ssa) } else { json!([]) };
+                        writeln!(cx.w, "{j}").unwrap();
+                    }
+                    cx.id += 1;
+                }
+            }
+            x *= step;
+        }
+    }
+}
+
 fn main() {
     let args: Vec<String> = std::env::args().collect();
     let which = args[1].clone();
@@ -271,6 +311,16 @@ fn main() {
         }
     }
     if which == "vm" { shape_arg_cases::<VmFunction>(&mut cx, "vm"); } else { shape_arg_cases::<JitFunction>(&mut cx, "jit"); }
+    // last, because a panic inside an out-of-line call of the JIT aborts the process
+    {
+        use std::io::Write as _;
+        cx.w.flush().unwrap();
+    }
+    if which == "vm" {
+        narrow_cases::<VmFunction>(&mut cx, "vm", &|p| vm_fn::<255>(p).ok(), quick);
+    } else {
+        narrow_cases::<JitFunction>(&mut cx, "jit", &|p| jit_fn(p).ok(), quick);
+    }
     let n = cx.id;
     file.flush().unwrap();
     eprintln!("c11 {which}: {n} records over {} programs", progs.len());
